@@ -15,6 +15,10 @@ use prost::Message;
 use crate::p2p::{MAX_MH_SIZE, P2pError, Result};
 use crate::store::Store;
 
+#[cfg(eigerco_lumina_verif)]
+#[path = "shwap_verif_hooks.rs"]
+pub mod verif_hooks;
+
 /// Multihasher for Shwap types.
 pub(super) struct ShwapMultihasher<S>
 where
